@@ -2,6 +2,7 @@
 C07 — traversal order is the canonical BFS / DFS order induced by link order, deterministically.
 Case: see eglib/trav.py
 """
+from eglib import h
 from eglib import graphs, trav
 from eglib.driver import Violation, require
 from eglib.model import ERROR, NONNEIGHBOR, ref_bfs, ref_dfs_pre, ref_dfs_stack, ref_neighbors
@@ -134,7 +135,7 @@ def check_deep(spec):
         else:
             exp = ref(G, 0, None, 0, 1, None)
         try:
-            got = [vi[id(x)] for x in fn(None, spine[0], unknown_handling=1)]
+            got = [vi[id(x)] for x in fn(None, spine[0], **h.kw(u=1))]
         except RecursionError:
             if name == "dft_recursive":
                 continue           # no answer is acceptable for the recursive form
@@ -227,10 +228,10 @@ def _check_on(S, case, rebuild=True):
         for name, fn, first in (("bft", B.bft, bft), ("dft_recursive", D.dft_recursive, dfr), ("dft_iterative", D.dft_iterative, dfi)):
             for mk in (S.fresh_ff, S.fresh_method_ff):
                 try:
-                    fn(S.uni, start, direction_sensitive=S.d, unknown_handling=S.u, ff_via=mk(accept_all=True))
+                    fn(S.uni, start, **h.kw(S.d, S.u), ff_via=mk(accept_all=True))
                 except NotImplementedError:
                     pass  # the accept-all filter may reach an unknown-class link the real filter prunes (ERROR mode)
-                again = S.idx(fn(S.uni, start, direction_sensitive=S.d, unknown_handling=S.u, ff_via=mk()))
+                again = S.idx(fn(S.uni, start, **h.kw(S.d, S.u), ff_via=mk()))
                 require(again == first, "order-depends-on-earlier-call", f"{name} (caching on): {first} first, {again} after a call with another short-lived filter")
     junk = [object() for _ in range(257)] + [graphs.build({"nv": 3, "edges": [[0, 0, 1]], "reassign": []})]
     if rebuild:
